@@ -188,6 +188,7 @@ def run_generated(cm: ClassModel, spec: dict, sources: dict[str, str], scripts: 
     for name in list(spec) + ["SKIP"]:
         env[f"parse_{name}"] = late(f"parse_{name}")
     env["parse_trivia"] = late("parse_trivia")
+    env["__closed_world__"] = True  # everything the emitted closures may name is in env: an unbound name is a NameError
     ev = Ev(env, where, cm, 200000)
     try:
         for key in ["<trivia>"] + [n for n in sources if n != "<trivia>"]:
@@ -286,7 +287,7 @@ def check_gen(repo: Repo, where: str, masks: dict, thorough: bool = False, selec
             tail = "" if len(script_list) == 1 else f" (leaf outcomes {scripts})"
             if "raises" in oi or "raises" in og:
                 if oi.get("raises") != og.get("raises"):
-                    bad.append(("one sibling raises where the other does not", f"{desc}{tail}: Rule.parse {oi.get('raises') or 'returns'}, generated code {og.get('raises') or 'returns'}"))
+                    bad.append(("the siblings raise different exceptions" if "raises" in oi and "raises" in og else "one sibling raises where the other does not", f"{desc}{tail}: Rule.parse {oi.get('raises') or 'returns'}, generated code {og.get('raises') or 'returns'}"))
                 continue
             if oi["result"] != og["result"]:
                 bad.append(("the siblings disagree on success", f"{desc}{tail}: Rule.parse returns {oi['result']}, generated code {og['result']}"))
